@@ -669,3 +669,14 @@ package syntax
 //@   loop 1 invariant ghost(bfmt) == old(ghost(bfmt))
 //@   loop 2 invariant 0 <= iter && iter <= len(self.List) && (forall q :: 0 <= q && q < iter ==> self.List[q].Id != "*")
 //@   loop 2 invariant forall b *syntax.BindStm :: ghost(bfmt)[b] != old(ghost(bfmt)[b]) ==> exists q :: 0 <= q && q < iter && self.List[q] == b
+
+// ---------------------------------------------------------------- C09 no comment is lost when comments are attached to nodes
+// attachComments splits the pending comment blocks into those attached to the node, those kept
+// as free-standing ("scope") comments in front of it, and those left for later nodes: every
+// block ends up in exactly one of the three (counted).
+//@ func syntax.attachComments property C09
+//@   requires node != nil
+//@   ensures @conserved len(comments0) > 0 ==> len(node.scopeComments) + len(node.Comments) + len(result) == len(comments0) || (len(node.Comments) == old(len(node.Comments)) && len(node.scopeComments) + len(result) == len(comments0))
+//@   loop 1 invariant len(scopeComments) + len(nodeComments) + len(comments) == len(comments0) && len(comments) >= 0 && len(comments) <= len(comments0)
+//@   loop 1 invariant base(comments) == base(comments0) && off(comments) + len(comments) == off(comments0) + len(comments0)
+//@   loop 2 invariant 0 <= iter && iter <= len(nodeComments) && len(node.Comments) == iter && len(node.scopeComments) + len(nodeComments) + len(comments) == len(comments0)
